@@ -384,6 +384,34 @@ func Catalogue(syntax string) []Dev {
 	declDev("lower-plain-upper-declares-other-name", &ExtRange{Ranges: [][2]int64{{50, 99}}}, &ExtRange{Ranges: whole, Decls: []ExtDecl{{Number: 100, FullName: ".a.b.c.x9", Type: "int32"}}})
 	declDev("lower-declared-upper-declared", &ExtRange{Ranges: [][2]int64{{50, 99}}, Decls: []ExtDecl{{Number: 99, FullName: ".a.b.c.x1", Type: "int32"}}}, &ExtRange{Ranges: whole, Decls: []ExtDecl{{Number: 100, FullName: ".a.b.c.x2", Type: "int32"}}})
 	declDev("upper-first-lower-verified", &ExtRange{Ranges: whole}, &ExtRange{Ranges: [][2]int64{{50, 99}}, Verification: "DECLARATION"})
+	if syntax == "2023" {
+		// `features` written as a message literal, with and without an extension of FeatureSet inside
+		// (google/protobuf/go_features.proto is a standard import)
+		goImp := func(ws *WS) { ws.Main().Imports = append(ws.Main().Imports, Import{"google/protobuf/go_features.proto", ""}) }
+		add("features.literal", "file-plain", func(ws *WS) {
+			ws.Main().Options = append(ws.Main().Options, Option{"features", "{ field_presence: IMPLICIT }"})
+		})
+		add("features.literal", "file-with-extension", func(ws *WS) {
+			goImp(ws)
+			ws.Main().Options = append(ws.Main().Options, Option{"features", "{ field_presence: IMPLICIT, [pb.go] { legacy_unmarshal_json_enum: true } }"})
+		})
+		add("features.literal", "file-only-extension", func(ws *WS) {
+			goImp(ws)
+			ws.Main().Options = append(ws.Main().Options, Option{"features", "{ [pb.go] { legacy_unmarshal_json_enum: true } }"})
+		})
+		add("features.literal", "file-extension-path", func(ws *WS) {
+			goImp(ws)
+			ws.Main().Options = append(ws.Main().Options, Option{"features.(pb.go).legacy_unmarshal_json_enum", "true"})
+		})
+		add("features.literal", "field-with-extension", func(ws *WS) {
+			goImp(ws)
+			F(ws, "f1").Opts = append(F(ws, "f1").Opts, Option{"features", "{ field_presence: IMPLICIT, [pb.go] { legacy_unmarshal_json_enum: true } }"})
+		})
+		add("features.literal", "enum-with-extension", func(ws *WS) {
+			goImp(ws)
+			ws.AME.Body = append([]any{&Option{"features", "{ enum_type: CLOSED, [pb.go] { legacy_unmarshal_json_enum: true } }"}}, ws.AME.Body...)
+		})
+	}
 	add("second-message", "field-of-M", func(ws *WS) {
 		ws.Main().Decls = append(ws.Main().Decls, &Msg{Name: "M2", Body: []any{f(lab, "M", "m", 1), f(lab, "M.Inner", "n", 2), f(lab, "M.ME", "e", 3)}})
 	})
